@@ -39,7 +39,7 @@ def main():
         r1 = subprocess.run(["/venv/bin/python", demo], capture_output=True, text=True, env=env, cwd=root, timeout=600)
         print("%s demo: unchanged exit=%d, changed exit=%d" % (a.id, r0.returncode, r1.returncode))
         if a.suite:
-            t = sh("cd %s && /venv/bin/python -m pytest -q -p no:cacheprovider -n 12 menpo 2>&1 | grep -E '^(FAILED|ERROR)' | sort | diff - /tmp/baseline_failures.txt | head -5" % root)
+            t = sh("cd %s && /venv/bin/python -m pytest -q -p no:cacheprovider -n 12 menpo 2>&1 | grep -E '^(FAILED|ERROR)' | sort | diff - %s | head -5" % (root, os.path.join(HERE, "seeded", "baseline_failures.txt")))
             print("%s suite diff vs baseline failures: %s" % (a.id, t.stdout.strip() or "none"))
         rc = 0
         for prop in props:
